@@ -16,9 +16,27 @@ import numpy as np
 from klongpy import KlongInterpreter
 from klongpy.core import KGChar, KGSym
 
-from harness.canon import canon
+from harness.canon import canon as _canon0, fbits
 
-BUDGET = 300           # verb applications / interpreter evaluations per case (deterministic kill budget)
+BUDGET = 3000          # interpreter evaluations per case (deterministic kill budget; never wall-clock)
+
+
+def canon(v):
+    """harness.canon.canon, except that the backend's own KGChar class (klongpy/backends/numpy_backend.py),
+    which is not the klongpy.core.KGChar that canon.py tests for, is a character too"""
+    if type(v).__name__ == "KGChar" and isinstance(v, str):
+        return ["c", ord(str(v))]
+    if isinstance(v, np.ndarray):
+        if v.ndim == 0:
+            return canon(v.item())
+        return ["l"] + [canon(x) for x in v]
+    if isinstance(v, (list, tuple)):
+        return ["l"] + [canon(x) for x in v]
+    if isinstance(v, dict):
+        items = [[canon(k), canon(x)] for k, x in v.items()]
+        items.sort(key=lambda kv: repr(kv[0]))
+        return ["d"] + items
+    return _canon0(v)
 
 
 class Budget(Exception):
@@ -67,7 +85,7 @@ DYADS = {
     "Ldec": ("{(x*10)+y}", "{(x*10)+y}(p;q)"),      # non-associative
     "Lsnd": ("{y}", "{y}(p;q)"), "Lfst": ("{x}", "{x}(p;q)"),
     "Lnest": ("{(,x),y}", "{(,x),y}(p;q)"),
-    "proj": ("{x+y*z}(;;2)", "{x+y*z}(;;2)(p;q)"),
+    "proj": ("{x+y*z}(;;2)", "pj(p;q)"),
     "named": ("fd", "fd(p;q)"),                    # fd::{x-2*y}
     "nproj": ("pj", "pj(p;q)"),                    # pj::{x+y*z}(;;2)
     "py": ("pyd", "pyd(p;q)"),                     # Python callable, logs its calls
@@ -81,7 +99,7 @@ MONADS = {
     "Lhalf": ("{x:%2}", "{x:%2}(p)"),                    # converges to 0
     "Lcons": ("{1,x}", "{1,x}(p)"),
     "Lflat": ("{,/x}", "{,/x}(p)"),
-    "proj": ("{x+y}(1;)", "{x+y}(1;)(p)"),
+    "proj": ("{x+y}(1;)", "pm(p)"),
     "named": ("fm", "fm(p)"),                      # fm::{(x*3)+1}
     "py": ("pym", "pym(p)"),                       # Python callable, logs its calls
 }
@@ -104,11 +122,13 @@ class World:
     def __init__(self):
         self.k = KlongInterpreter()
         self.log = []
+        self.apps = []
         self.count = 0
         k = self.k
         k("fd::{x-2*y}")
         k("pj::{x+y*z}(;;2)")
         k("fm::{(x*3)+1}")
+        k("pm::{x+y}(1;)")
 
         def pyd(x, y):
             self.log.append(["d", canon(x), canon(y)])
@@ -131,19 +151,23 @@ class World:
 
     def reset(self):
         self.log = []
+        self.apps = []
         self.count = 0
 
     # one separately evaluated application of the verb
     def app2(self, vid, x, y):
+        self.apps.append([2, canon(x), canon(y)])
         self.k["p"] = x
         self.k["q"] = y
         return self.k(DYADS[vid][1])
 
     def app1(self, vid, x):
+        self.apps.append([1, canon(x)])
         self.k["p"] = x
         return self.k(MONADS[vid][1])
 
     def pred(self, pid, x):
+        self.apps.append(["p", canon(x)])
         self.k["p"] = x
         return self.k(PREDS[pid] + "(p)")
 
@@ -198,7 +222,7 @@ def expansion(w, adv, vid, a, left=None):
     f2 = lambda x, y: w.app2(vid, x, y)
     if adv == "each":
         if isinstance(a, dict):
-            return [f1(np.asarray(list(kv), dtype=object) if True else None) for kv in a.items()]
+            return [f1(w.k._backend.kg_asarray(list(kv))) for kv in a.items()]
         if is_atom(a):
             return a if (is_str(a) or is_listy(a)) else f1(a)
         return [f1(x) for x in elems(a)]
@@ -348,7 +372,6 @@ def has_real(c):
 
 
 def to_real(c):
-    from harness.canon import fbits
     if c[0] == "i":
         return ["r", fbits(float(c[1]))]
     if c[0] == "l":
@@ -402,16 +425,29 @@ def run_case(w, case):
         else:
             e = expansion(w, case["adv"], case["verb"], a, left)
         out["e"] = canon(e)
+        # can the interpreter represent the list of results at all?  kg_asarray broadcasts results of
+        # unequal rank ([5] and [[5]]) into one array: a value-representation matter (C01), not an adverb's
+        if isinstance(e, list):
+            try:
+                out["unrep"] = norm(canon(k._backend.kg_asarray(tolists(e)))) != norm(out["e"])
+            except Exception:
+                out["unrep"] = True
     except Budget:
         out["e"] = ["hang"]
     except Outside as e:
         out["e"] = ["outside", str(e)]
     except Exception as e:  # noqa
         out["e"] = ["e", type(e).__name__]
-    out["elog"] = w.log
+    out["eapps"] = w.apps
     out["tn"] = norm(out["t"])
     out["en"] = norm(out["e"])
     return out
+
+
+def tolists(v):
+    if isinstance(v, list):
+        return [tolists(x) for x in v]
+    return v
 
 
 def chain_expansion(w, case, a, left):
@@ -431,7 +467,7 @@ def generic_monadic(w, adv, f1, a):
     f = lambda x: collect(f1(x))
     if adv == "each":
         if isinstance(a, dict):
-            return [f(np.asarray(list(kv), dtype=object)) for kv in a.items()]
+            return [f(w.k._backend.kg_asarray(list(kv))) for kv in a.items()]
         if is_atom(a):
             return a if (is_str(a) or is_listy(a)) else f(a)
         return [f(x) for x in elems(a)]
